@@ -111,6 +111,22 @@ where
     Ok(acc)
 }
 
+/// Verification hook (guard: `--cfg p3_recursion_verif`): public wrapper around the
+/// crate-private periodic column gadget.
+#[cfg(p3_recursion_verif)]
+pub fn verif_evaluate_periodic_columns_circuit<Val, Challenge>(
+    circuit: &mut CircuitBuilder<Challenge>,
+    domain: &TwoAdicMultiplicativeCoset<Val>,
+    periodic_columns: &[Vec<Val>],
+    point: Target,
+) -> Result<Vec<Target>, VerificationError>
+where
+    Val: TwoAdicField,
+    Challenge: ExtensionField<Val>,
+{
+    evaluate_periodic_columns_circuit(circuit, domain, periodic_columns, point)
+}
+
 #[cfg(test)]
 mod tests {
     use alloc::vec;
